@@ -15,6 +15,8 @@ pub struct ModelInfo {
     pub member_rels: Vec<usize>,
     pub constants: Vec<usize>,
     pub n_user_rules: usize,
+    /// member types: (sort, membership relation, morphism-application function)
+    pub member_sorts: Vec<(usize, usize, usize)>,
 }
 
 pub struct Prog {
@@ -61,6 +63,27 @@ pub fn load_progs(entries: &[Entry]) -> Result<Vec<Prog>, String> {
                 member_rels: mp.member_rels,
                 constants: mp.constants,
                 n_user_rules: mp.n_user_rules,
+                member_sorts: mp.member_sorts,
+            });
+            mp.program
+        } else if let Some(rest) = e.origin.strip_prefix("genmember:") {
+            let mut it = rest.split(':');
+            let seed: u64 = it.next().and_then(|s| s.parse().ok()).ok_or("bad origin")?;
+            let index: u64 = it.next().and_then(|s| s.parse().ok()).ok_or("bad origin")?;
+            let mut rng = Rng::new(simcore::rng::derive_seed(seed, 4444, index));
+            let mp = lang::gen::gen_member_program(&mut rng);
+            if mp.text != e.source {
+                return Err(format!("{}: regenerated member-type program differs from the compiled source", e.name));
+            }
+            model = Some(ModelInfo {
+                model_sort: mp.model_sort,
+                mor_sort: mp.mor_sort,
+                dom_rel: mp.dom_rel,
+                cod_rel: mp.cod_rel,
+                member_rels: mp.member_rels,
+                constants: mp.constants,
+                n_user_rules: mp.n_user_rules,
+                member_sorts: mp.member_sorts,
             });
             mp.program
         } else if e.origin == "parse" {
@@ -319,6 +342,8 @@ pub type Ref = u32;
 #[derive(Clone, Debug, PartialEq)]
 pub enum Op {
     NewEl { sort: usize },
+    /// `new_<member type>(parent)`: an element of a member type inside the model element `parent`
+    NewMember { sort: usize, parent: Ref },
     NewEnum { ctor: usize, args: Vec<Ref> },
     Insert { rel: usize, args: Vec<Ref> },
     Define { rel: usize, args: Vec<Ref> },
@@ -333,6 +358,7 @@ impl Op {
         let refs = |v: &Vec<Ref>| Json::arr_u32(v);
         match self {
             Op::NewEl { sort } => Json::Arr(vec![Json::str("new"), Json::Int(*sort as i64)]),
+            Op::NewMember { sort, parent } => Json::Arr(vec![Json::str("new_member"), Json::Int(*sort as i64), Json::Int(*parent as i64)]),
             Op::NewEnum { ctor, args } => Json::Arr(vec![Json::str("new_enum"), Json::Int(*ctor as i64), refs(args)]),
             Op::Insert { rel, args } => Json::Arr(vec![Json::str("insert"), Json::Int(*rel as i64), refs(args)]),
             Op::Define { rel, args } => Json::Arr(vec![Json::str("define"), Json::Int(*rel as i64), refs(args)]),
@@ -346,6 +372,10 @@ impl Op {
         let refs = |j: &Json| -> Option<Vec<Ref>> { j.as_arr()?.iter().map(|x| x.as_u64().map(|v| v as u32)).collect() };
         Some(match a.first()?.as_str()? {
             "new" => Op::NewEl { sort: a.get(1)?.as_u64()? as usize },
+            "new_member" => Op::NewMember {
+                sort: a.get(1)?.as_u64()? as usize,
+                parent: a.get(2)?.as_u64()? as u32,
+            },
             "new_enum" => Op::NewEnum {
                 ctor: a.get(1)?.as_u64()? as usize,
                 args: refs(a.get(2)?)?,
@@ -372,6 +402,7 @@ impl Op {
     pub fn show(&self, p: &Program) -> String {
         match self {
             Op::NewEl { sort } => format!("new_{}()", p.sort_snake(*sort)),
+            Op::NewMember { sort, parent } => format!("new_{}({parent})", p.sort_snake(*sort)),
             Op::NewEnum { ctor, args } => format!("new {}({:?})", p.rels[*ctor].name, args),
             Op::Insert { rel, args } => format!("insert_{}({:?})", p.rel_snake(*rel), args),
             Op::Define { rel, args } => format!("define_{}({:?})", p.rel_snake(*rel), args),
@@ -584,6 +615,13 @@ pub fn apply_op(prog: &Prog, m: &mut dyn DynModel, op: &Op, on_poll: &dyn Fn(&dy
             }
             (OpResult::Id(m.new_el(*sort)), vec![])
         }
+        Op::NewMember { sort, parent } => match &p.sorts[*sort].kind {
+            SortKind::Member { model_sort, .. } => match resolve(m, *model_sort, *parent) {
+                Some(par) => (OpResult::Id(m.new_member(*sort, par)), vec![par]),
+                None => (OpResult::Skipped, vec![]),
+            },
+            _ => (OpResult::Skipped, vec![]),
+        },
         Op::NewEnum { ctor, args } => match resolve_args(prog, m, &p.rels[*ctor].args, args) {
             Some(a) => (OpResult::Id(m.new_enum(*ctor, &a)), a),
             None => (OpResult::Skipped, vec![]),
